@@ -7,6 +7,7 @@ use std::io::{self, BufRead, Write};
 use std::panic::{catch_unwind, AssertUnwindSafe};
 
 mod actor;
+mod cluster;
 mod faulty;
 mod group;
 mod node;
@@ -29,6 +30,7 @@ fn new_domain(name: &str, params: &[&str]) -> Option<Box<dyn Domain>> {
         "store" => Some(Box::new(store::StoreDomain::new(params))),
         "group" => Some(Box::new(group::GroupDomain::new(params))),
         "actor" => Some(Box::new(actor::ActorDomain::new(params))),
+        "cluster" => Some(Box::new(cluster::ClusterDomain::new(params))),
         _ => None,
     }
 }
